@@ -29,8 +29,9 @@ ASSUMPTIONS = [
 HEX32 = "0123456789abcdef0123456789abcdef"
 UUIDTXT = "12345678-1234-4234-8234-123456789abc"
 LONG = "L" * 1024
-NAMES_Q = ["b", "a", "Z", "ä", HEX32]
-NAMES_T = ["b", "a", "Z", "ä", " ", "..", HEX32, UUIDTXT, "urn:uuid:" + UUIDTXT, LONG]
+ODDWS = "Z\u00a0\tq\u200b"          # starts with Z (sorts first), contains nbsp, tab, zero-width space
+NAMES_Q = ["b", "a", ODDWS, "ä", HEX32]
+NAMES_T = ["b", "a", "Z", "ä", " ", "..", HEX32, UUIDTXT, "urn:uuid:" + UUIDTXT, LONG, ODDWS, "nl\nx"]
 CHUNK = 4
 WALL_CAP = {"quick": 900, "thorough": 7200}
 
@@ -185,8 +186,12 @@ DEEP_KINDS = ["file.blocks", "block.data_arrays", "section.sections@1"]
 
 
 def BOUNDS(tier):
-    return {"kinds": len(KINDS), "names": len(NAMES_Q if tier == "quick" else NAMES_T),
-            "depth": 3 if tier == "quick" else 4, "deep_kinds_depth": 4 if tier == "quick" else 5,
+    if tier == "quick":
+        return {"kinds": len(KINDS), "names": 5, "depth": 3, "deep_kinds": {"names": 4, "depth": 4},
+                "handle_patterns": "single handle; two alternating handles (AB) for link lists and 5 owned kinds",
+                "delete_modes": ["name", "id", "idx", "negidx", "obj"]}
+    return {"kinds": len(KINDS), "names": 12, "depth": 3, "depth4_names": 4, "deep_kinds": {"names": 4, "depth": 5},
+            "handle_patterns": "single; AB and AAB (5 names, depth 3); AB (4 names, depth 4) for link lists and 5 owned kinds",
             "delete_modes": ["name", "id", "idx", "negidx", "obj"]}
 
 
@@ -221,26 +226,40 @@ def gen_histories(names, depth):
     return out
 
 
+AB_KINDS = ["file.blocks", "block.data_arrays", "section.sections@1", "section.props", "source.sources@1"]
+
+
 def cases(tier):
-    names = NAMES_Q if tier == "quick" else NAMES_T
-    d = 3 if tier == "quick" else 4
     out = []
+    N4 = NAMES_Q[:3] + [HEX32]
+
+    def add(kind, names, depth, pats, minlen=1):
+        for h in gen_histories(list(range(len(names))), depth):
+            if len(h) < minlen:
+                continue
+            for hp in pats:
+                if hp is not None and len(h) < 2:
+                    continue
+                out.append({"kind": kind, "names": names, "ops": h, "hp": hp})
+            # 'quiet' variant: no lookups between a delete and the following operation (a lookup would
+            # refresh per-handle state and hide stale caches); only for histories where that matters
+            if any(op[0] == "delete" for op in h[:-1]):
+                out.append({"kind": kind, "names": names, "ops": h, "hp": None, "quiet": True})
+
     for kind in KINDS:
-        dd = d
-        nn = names
-        if kind in DEEP_KINDS:
-            dd = d + 1
-            nn = names[:3] + [HEX32] if tier == "quick" else names[:4] + [HEX32, UUIDTXT]
-        if tier == "thorough" and kind not in DEEP_KINDS:
-            # full alphabet at depth 3, 5-name alphabet at depth 4
-            for h in gen_histories(list(range(len(NAMES_T))), 3):
-                out.append({"kind": kind, "names": NAMES_T, "ops": h})
-            for h in gen_histories(list(range(len(NAMES_Q))), 4):
-                if len(h) == 4:
-                    out.append({"kind": kind, "names": NAMES_Q, "ops": h})
-            continue
-        for h in gen_histories(list(range(len(nn))), dd):
-            out.append({"kind": kind, "names": nn, "ops": h})
+        ab = KINDS[kind]["link"] or kind in AB_KINDS
+        if tier == "quick":
+            add(kind, NAMES_Q, 3, [None] + (["AB"] if ab else []))
+            if kind in DEEP_KINDS:
+                add(kind, N4, 4, [None], minlen=4)
+        else:
+            add(kind, NAMES_T, 3, [None])
+            add(kind, N4, 4, [None], minlen=4)
+            if ab:
+                add(kind, NAMES_Q, 3, ["AB", "AAB"])
+                add(kind, N4, 4, ["AB"], minlen=4)
+            if kind in DEEP_KINDS:
+                add(kind, N4, 5, [None], minlen=5)
     return out
 
 
@@ -264,12 +283,14 @@ def nclass(nm):
         return "long"
     if nm in (" ", ".."):
         return "blank-dots"
+    if any(ch in nm for ch in "\t\n\u00a0\u200b"):
+        return "odd-whitespace"
     if not nm.isascii():
         return "nonascii"
     return "plain"
 
 
-def check_container(r, kind, c, model, absent, stage, link):
+def check_container(r, kind, c, model, absent, stage, link, gone=()):
     """model: list of (name, id). Returns False after the first disagreement."""
     n = len(model)
 
@@ -349,6 +370,17 @@ def check_container(r, kind, c, model, absent, stage, link):
             pass
         except Exception as ex:  # noqa
             return bad("absent-lookup-raises-" + type(ex).__name__, nc, "c[%r] raises %r" % (nm[:40], ex))
+    for gid in gone:
+        try:
+            if gid in c:
+                return bad("deleted-id-contained", "-", "the id of a deleted/unlinked member is still reported as contained")
+            try:
+                e = c[gid]
+                return bad("deleted-id-found", "-", "c[id of a deleted/unlinked member] returned %r" % e.name[:40])
+            except (KeyError, IndexError):
+                pass
+        except Exception as ex:  # noqa
+            return bad("deleted-id-raises-" + type(ex).__name__, "-", "lookup of a deleted id raises %r" % ex)
     try:
         if "abcdef00-0000-4000-a000-0000000fffff" in c:
             return bad("unknown-id-contained", "-", "an id that does not exist is reported as contained")
@@ -401,14 +433,22 @@ def run_case(case):
             K["setup"](f, names)
         else:
             K["setup"](f)
+        hp = case.get("hp")         # handle pattern, e.g. "AB": operations alternate between two container handles
         p = K["parent"](f)
         c = K["cont"](p)
+        handles = {"A": (p, c)}
+        if hp:
+            pb = K["parent"](f)
+            handles["B"] = (pb, K["cont"](pb))
+        gone = []
         model = []          # (name, id) in creation order
         seen_ids = {}       # name -> id at creation (ids never change)
         created_any = False
         for i, op in enumerate(hist):
             last = i == len(hist) - 1
             nviol = len(r.violations)
+            if hp:
+                p, c = handles[hp[i % len(hp)]]
             if op[0] == "create":
                 nm = names[op[1]]
                 nc = nclass(nm)
@@ -444,6 +484,8 @@ def run_case(case):
                         r.viol("C03|%s|created-not-listed|%s" % (kind, nc), "%s: %r created but not found by iteration" % (kind, nm[:40]), {})
                         return r
                     model.append((nm, eid))
+                    if eid in gone:
+                        gone.remove(eid)     # link lists: the same entity may be linked again
                     created_any = True
                     r.outcomes.add("created:" + nc)
             elif op[0] == "delete":
@@ -468,18 +510,29 @@ def run_case(case):
                            "%s: deleting member %r by %s raises %s" % (kind, nm[:40], mo, type(exc).__name__), {})
                     return r
                 del model[k]
+                if not any(m[1] == eid for m in model):
+                    gone.append(eid)
                 r.outcomes.add("deleted-by-" + mo)
             else:
                 f.close()
                 f = nix.File.open(path, nix.FileMode.ReadWrite)
                 p = K["parent"](f)
                 c = K["cont"](p)
+                handles = {"A": (p, c)}
+                if hp:
+                    pb = K["parent"](f)
+                    handles["B"] = (pb, K["cont"](pb))
                 r.outcomes.add("reopen")
+            if case.get("quiet") and op[0] == "delete" and not last:
+                continue
             absent = [nm for nm in names if not any(m[0] == nm for m in model)] + ["nope"]
-            ok = check_container(r, kind, c, model, absent, "after-" + op[0] + ("-" + op[2] if op[0] == "delete" else ""), K["link"])
+            ok = check_container(r, kind, c, model, absent, "after-" + op[0] + ("-" + op[2] if op[0] == "delete" else ""), K["link"], gone)
+            if ok and hp:
+                for hn, (_hp, hc) in handles.items():
+                    ok = ok and check_container(r, kind, hc, model, absent, "held-handle-" + hn, K["link"], gone)
             if ok:
                 # fresh container handle must agree too
-                ok = check_container(r, kind, K["cont"](K["parent"](f)), model, absent, "fresh-handle", K["link"])
+                ok = check_container(r, kind, K["cont"](K["parent"](f)), model, absent, "fresh-handle", K["link"], gone)
             if ok:
                 # ids: well formed, unique in the file, stable
                 ids = all_ids(f)
